@@ -290,6 +290,10 @@ class Exec:
 
     def need(self, st, goal, name, kind='check', line=None):
         if self.dry: return
+        if '@' in name:                      # line numbers shift on harmless edits: name by ordinal instead
+            base = name.split('@')[0]
+            k = sum(1 for o in self.obls if o.name.startswith(base + '#'))
+            name = f'{base}#{k}'
         self.obls.append(Obligation(name, st.pc, goal, kind, line))
 
     def pow(self, a, b):
